@@ -88,6 +88,8 @@ pub struct Pending<'tcx> {
     pub slot: usize,
     pub dest: Ptr<'tcx>,
     pub target: BasicBlock,
+    /// Some(acc): a fold - the closure gets (acc, item) and its result is the next acc; None: a map collecting the results
+    pub acc: Option<(V<'tcx>, Ty<'tcx>)>,
 }
 #[derive(Clone)]
 pub struct State<'tcx> {
@@ -720,6 +722,30 @@ impl<'tcx> Cx<'tcx> {
                 // type parameters replaced by a plain scalar (only for bool constants defined in core / alloc / std).
                 let krate = tcx.crate_name(did.krate);
                 let cty = tcx.type_of(did).instantiate_identity().skip_norm_wip();
+                {
+                    use rustc_middle::ty::{TypeFoldable, TypeVisitableExt};
+                    // A table constant of a generic impl (`impl<S> Matrix3<S> { const PLANES: [(usize, usize); 3] = .. }`): its
+                    // type mentions no parameter; it is evaluated with the parameters replaced by three different scalar types
+                    // and used only if all three evaluations agree (a value that depended on the parameter would differ).
+                    if !cty.has_non_region_param() && !cty.is_bool() {
+                        let mut vals: Vec<V<'tcx>> = vec![];
+                        for sub in [tcx.types.f32, tcx.types.f64, tcx.types.u8] {
+                            let args2 = uv.args.fold_with(&mut ty::BottomUpFolder { tcx, ty_op: |t| if matches!(t.kind(), ty::Param(_)) { sub } else { t }, lt_op: |l| l, ct_op: |c| c });
+                            let uv2 = mir::UnevaluatedConst { def: uv.def, args: args2, promoted: None };
+                            match mir::Const::Unevaluated(uv2, cty).eval(tcx, self.tenv, rustc_span::DUMMY_SP) {
+                                Ok(val) => match self.destructure_const(val, cty, 0) {
+                                    Some(v) => vals.push(v),
+                                    None => return None,
+                                },
+                                Err(_) => return None,
+                            }
+                        }
+                        if vals.len() == 3 && Self::veq(&vals[0], &vals[1]) && Self::veq(&vals[0], &vals[2]) {
+                            return vals.into_iter().next();
+                        }
+                        return None;
+                    }
+                }
                 if cty.is_bool() && matches!(krate.as_str(), "core" | "alloc" | "std") {
                     use rustc_middle::ty::TypeFoldable;
                     let f32t = tcx.types.f32;
@@ -2180,9 +2206,33 @@ impl<'tcx> Cx<'tcx> {
                 let fcell = st.cells.len() - 1;
                 st.cells.push(Cell { ty: *out_ty, v: V::Undef, name: None });
                 let slot = st.cells.len() - 1;
-                st.pending.push(Pending { depth: st.frames.len(), fcell, fty: argtys[1], items: items.clone(), item_ty: *item_ty, out_ty: *out_ty, idx: 0, results: vec![], slot, dest: dest.clone(), target: tgt });
+                st.pending.push(Pending { depth: st.frames.len(), fcell, fty: argtys[1], items: items.clone(), item_ty: *item_ty, out_ty: *out_ty, idx: 0, results: vec![], slot, dest: dest.clone(), target: tgt, acc: None });
                 push_uniq(&mut self.stats.borrow_mut().models, name.clone());
                 return self.step_pending(st, base);
+            }
+        }
+        // `zip(a, b).fold(init, f)` / `.for_each(..)` over two concrete cursors: f applied to the pairs in lock step
+        if name == "core::iter::adapters::zip::ZipImpl::fold" && argv.len() == 3 {
+            if let (V::Agg(fs), Some(tgt)) = (&argv[0], target) {
+                if fs.len() >= 2 {
+                    if let (V::Iter { ptr: p1, front: f1, back: b1, by_value: v1 }, V::Iter { ptr: p2, front: f2, back: b2, by_value: v2 }) = (&fs[0], &fs[1]) {
+                        let n = std::cmp::min(b1 - f1, b2 - f2);
+                        let mut items = vec![];
+                        for i in 0..n {
+                            items.push(V::Agg(vec![self.cursor_elem(st, p1, f1 + i, *v1)?, self.cursor_elem(st, p2, f2 + i, *v2)?]));
+                        }
+                        let iter_trait = tcx.require_lang_item(LangItem::Iterator, rustc_span::DUMMY_SP);
+                        let item_did = tcx.associated_items(iter_trait).in_definition_order().find(|a| a.name().as_str() == "Item").ok_or("no Iterator::Item")?.def_id;
+                        let item_ty = self.norm(Ty::new_projection(tcx, item_did, [argtys[0]]));
+                        st.cells.push(Cell { ty: argtys[2], v: argv[2].clone(), name: None });
+                        let fcell = st.cells.len() - 1;
+                        st.cells.push(Cell { ty: dty, v: V::Undef, name: None });
+                        let slot = st.cells.len() - 1;
+                        st.pending.push(Pending { depth: st.frames.len(), fcell, fty: argtys[2], items, item_ty, out_ty: dty, idx: 0, results: vec![], slot, dest: dest.clone(), target: tgt, acc: Some((argv[1].clone(), argtys[1])) });
+                        push_uniq(&mut self.stats.borrow_mut().models, name.clone());
+                        return self.step_pending(st, base);
+                    }
+                }
             }
         }
         // `array::from_fn(f)`: f applied to 0, 1, ..., N-1
@@ -2194,7 +2244,7 @@ impl<'tcx> Cx<'tcx> {
                     st.cells.push(Cell { ty: *out_ty, v: V::Undef, name: None });
                     let slot = st.cells.len() - 1;
                     let items = (0..n).map(|i| V::Int(i as u128)).collect();
-                    st.pending.push(Pending { depth: st.frames.len(), fcell, fty: argtys[0], items, item_ty: tcx.types.usize, out_ty: *out_ty, idx: 0, results: vec![], slot, dest: dest.clone(), target: tgt });
+                    st.pending.push(Pending { depth: st.frames.len(), fcell, fty: argtys[0], items, item_ty: tcx.types.usize, out_ty: *out_ty, idx: 0, results: vec![], slot, dest: dest.clone(), target: tgt, acc: None });
                     push_uniq(&mut self.stats.borrow_mut().models, name.clone());
                     return self.step_pending(st, base);
                 }
@@ -2381,29 +2431,40 @@ impl<'tcx> Cx<'tcx> {
             let mut p = st.pending.pop().ok_or("no pending operation")?;
             if p.idx > 0 && p.results.len() < p.idx {
                 let v = st.cells[p.slot].v.clone();
-                if matches!(v, V::Undef) {
-                    return Err("closure result missing in array::map".into());
+                if matches!(v, V::Undef) && p.out_ty != tcx.types.unit {
+                    return Err("closure result missing in array::map / fold".into());
                 }
-                p.results.push(v);
+                let v = if matches!(v, V::Undef) { V::Agg(vec![]) } else { v };
+                if let Some((acc, _)) = p.acc.as_mut() {
+                    *acc = v.clone();
+                }
+                p.results.push(if p.acc.is_some() { V::Undef } else { v });
                 st.cells[p.slot].v = V::Undef;
             }
             if p.idx == p.items.len() {
-                let r = V::Agg(p.results.clone());
+                let r = match &p.acc {
+                    Some((acc, _)) => acc.clone(),
+                    None => V::Agg(p.results.clone()),
+                };
                 self.write(st, &p.dest, r)?;
                 self.goto(st, p.target);
                 return Ok(None);
             }
             let item = p.items[p.idx].clone();
             p.idx += 1;
+            let folding = p.acc.clone();
             let (fcell, fty, item_ty, out_ty, slot, depth) = (p.fcell, p.fty, p.item_ty, p.out_ty, p.slot, p.depth);
             let cur_bb = st.frames.last().ok_or("no frame")?.bb;
             st.pending.push(p);
             let fn_mut = tcx.require_lang_item(LangItem::FnMut, rustc_span::DUMMY_SP);
             let call_mut = tcx.associated_items(fn_mut).in_definition_order().find(|a| a.name().as_str() == "call_mut").ok_or("no call_mut")?.def_id;
-            let tup = Ty::new_tup(tcx, &[item_ty]);
+            let (tup, packed) = match folding {
+                Some((acc, acc_ty)) => (Ty::new_tup(tcx, &[acc_ty, item_ty]), V::Agg(vec![acc, item])),
+                None => (Ty::new_tup(tcx, &[item_ty]), V::Agg(vec![item])),
+            };
             let cargs = tcx.mk_args(&[fty.into(), tup.into()]);
             let fref_ty = Ty::new_mut_ref(tcx, tcx.lifetimes.re_erased, fty);
-            let r = self.call(st, base, call_mut, cargs, vec![V::Ref(ptr0(fcell)), V::Agg(vec![item])], vec![fref_ty, tup], ptr0(slot), out_ty, Some(cur_bb), rustc_span::DUMMY_SP)?;
+            let r = self.call(st, base, call_mut, cargs, vec![V::Ref(ptr0(fcell)), packed], vec![fref_ty, tup], ptr0(slot), out_ty, Some(cur_bb), rustc_span::DUMMY_SP)?;
             if let Some(o) = r {
                 return Ok(Some(o));
             }
